@@ -161,7 +161,7 @@ theorem shape_bend {list : List Sym} {body : List Nat} {s s' : St}
   simp [latched, hn, St.push]
 
 theorem step_shape (pre out0 : List Nat) (list : List Sym) (body : List Nat) (hb : ByteList body) (s s' : St)
-    (mi : MI pre out0 list body s)
+    (mi : MI false pre out0 list body s)
     (hmore : s.hasMore = true) (h : encodeMode (latched s) = .ok s') : Shape s s' := by
   have hlt : s.pos < body.length := by
     have := of_decide_eq_true hmore
@@ -169,6 +169,8 @@ theorem step_shape (pre out0 : List Nat) (list : List Sym) (body : List Nat) (hb
     exact this
   cases mi.phase with
   | done nomore _ _ _ => rw [hmore] at nomore; cases nomore
+  | ediAscii he _ _ _ _ _ _ _ _ => cases he
+  | final he _ _ _ _ _ => cases he
   | endgame _ sync mode plan nm one fit =>
     have hl : latched s = s := by simp [latched, nm]
     rw [hl] at h
@@ -196,9 +198,9 @@ theorem step_shape (pre out0 : List Nat) (list : List Sym) (body : List Nat) (hb
       exact ⟨X, by rw [hl]; exact c1, c3, fun _ => d2⟩
     | some l =>
       have hpl : ∃ l', s.mode.latch = some l' ∧ s.newMode = some l' ∧ s.mode ≠ .edifact := by
-        rcases pend with ⟨_, b⟩ | hp
+        rcases pend with ⟨_, b⟩ | ⟨l', h1, h2, _⟩
         · rw [hnm] at b; cases b
-        · exact hp
+        · exact ⟨l', h1, h2, (mi.noE rfl).2.1⟩
       obtain ⟨l', hlat, hnl, hnedi⟩ := hpl
       have hll : l' = l := by rw [hnm] at hnl; cases hnl; rfl
       subst hll
@@ -210,7 +212,7 @@ theorem step_shape (pre out0 : List Nat) (list : List Sym) (body : List Nat) (hb
       have hLpos : sL.pos = s.pos := by rw [← hsL]; rfl
       have hLnm : sL.newMode = none := by rw [← hsL]; rfl
       have hLcw : sL.cw = s.cw ++ [l'] := by rw [← hsL]; rfl
-      have hLplan : PlanOK sL.plan := by rw [← hsL]; exact plan
+      have hLplan : PlanOKE body sL.plan := by rw [← hsL]; exact plan
       have hLmode : sL.mode = s.mode := by rw [← hsL]; rfl
       have hLcl : sL.charsLeft = body.length - s.pos := by simp [St.charsLeft, hLin, hLpos]
       cases hm : s.mode with
@@ -315,11 +317,11 @@ structure TR (pre out0 : List Nat) (list : List Sym) (body : List Nat) (plan0 : 
 /-- one iteration of the main loop adds the segment that starts at the current position and carries
 the pending latch -/
 theorem step_TR_seg (pre out0 : List Nat) (list : List Sym) (body : List Nat) (hb : ByteList body) (plan0 : List (Nat × EMode))
-    (s s' : St) (segs : List Seg) (mi : MI pre out0 list body s) (tr : TR pre out0 list body plan0 s segs)
+    (s s' : St) (segs : List Seg) (mi : MI false pre out0 list body s) (tr : TR pre out0 list body plan0 s segs)
     (hmore : s.hasMore = true) (h : encodeMode (latched s) = .ok s') :
     ∃ X, TR pre out0 list body plan0 s' (segs ++ [(⟨s.pos, s.newMode, X⟩ : Seg)]) := by
   obtain ⟨X, hX, hpos, hrange⟩ := step_shape pre out0 list body hb s s' mi hmore h
-  have mi' := step_MI pre out0 list body hb s s' mi hmore h
+  have mi' := step_MI false pre out0 list body hb s s' mi hmore h
   have hpv' : PV plan0 (key s') := by
     have hl : PV plan0 (key (latched s)) := by
       unfold latched
@@ -362,6 +364,8 @@ theorem step_TR_seg (pre out0 : List Nat) (list : List Sym) (body : List Nat) (h
       rw [htake, hget, ← tr.cw]
       cases mi.phase with
       | done nomore _ _ _ => rw [hmore] at nomore; cases nomore
+      | ediAscii he _ _ _ _ _ _ _ _ => cases he
+      | final he _ _ _ _ _ => cases he
       | normal sync _ _ _ => exact ⟨false, syncB_of_sync sync, by intro h; cases h⟩
       | endgame _ sync mode plan nm one fit =>
         refine ⟨true, syncB_of_syncEnd sync, fun _ => ⟨by simp, ?_, ?_, ?_⟩⟩
@@ -380,6 +384,8 @@ theorem step_TR_seg (pre out0 : List Nat) (list : List Sym) (body : List Nat) (h
           exact one
         · cases mi'.phase with
           | done nomore _ _ _ => exact nomore
+          | ediAscii he _ _ _ _ _ _ _ _ => cases he
+          | final he _ _ _ _ _ => cases he
           | normal _ _ _ _ =>
             -- after the end game everything is consumed
             have hl : latched s = s := by simp [latched, nm]
@@ -408,14 +414,14 @@ theorem step_TR_seg (pre out0 : List Nat) (list : List Sym) (body : List Nat) (h
           exact fit
 
 theorem step_TR (pre out0 : List Nat) (list : List Sym) (body : List Nat) (hb : ByteList body) (plan0 : List (Nat × EMode))
-    (s s' : St) (segs : List Seg) (mi : MI pre out0 list body s) (tr : TR pre out0 list body plan0 s segs)
+    (s s' : St) (segs : List Seg) (mi : MI false pre out0 list body s) (tr : TR pre out0 list body plan0 s segs)
     (hmore : s.hasMore = true) (h : encodeMode (latched s) = .ok s') :
     ∃ g, TR pre out0 list body plan0 s' (segs ++ [g]) := by
   obtain ⟨X, hX⟩ := step_TR_seg pre out0 list body hb plan0 s s' segs mi tr hmore h
   exact ⟨_, hX⟩
 
 theorem mainLoop_TR (pre out0 : List Nat) (list : List Sym) (body : List Nat) (hb : ByteList body) (plan0 : List (Nat × EMode)) :
-    ∀ (f : Nat) (s : St) (k : Nat) (sE : St) (segs : List Seg), Enc.mainLoop f s k = .ok sE → MI pre out0 list body s →
+    ∀ (f : Nat) (s : St) (k : Nat) (sE : St) (segs : List Seg), Enc.mainLoop f s k = .ok sE → MI false pre out0 list body s →
       TR pre out0 list body plan0 s segs → ∃ segsE, TR pre out0 list body plan0 sE segsE := by
   intro f
   induction f with
@@ -425,7 +431,7 @@ theorem mainLoop_TR (pre out0 : List Nat) (list : List Sym) (body : List Nat) (h
     by_cases hmore : s.hasMore = true
     · obtain ⟨s', k', he, hm⟩ := mainLoop_step f s sE k h hmore
       obtain ⟨g, tr'⟩ := step_TR pre out0 list body hb plan0 s s' segs mi tr hmore he
-      exact ih s' k' sE _ hm (step_MI pre out0 list body hb s s' mi hmore he) tr'
+      exact ih s' k' sE _ hm (step_MI false pre out0 list body hb s s' mi hmore he) tr'
     · have hmf : s.hasMore = false := by simpa using hmore
       rw [mainLoop_end _ _ _ hmf] at h
       simp only [Except.ok.injEq] at h
